@@ -171,7 +171,7 @@ func modelType(t, u *H) (ok, soft bool) {
 	switch u.Shape {
 	case ShapeNil:
 		return true, false
-	case ShapePlainErr, ShapeBareHard, ShapeWrappedHard:
+	case ShapePlainErr, ShapeBareHard, ShapeWrappedHard, ShapeSharedHard:
 		return false, false
 	case ShapeBareSoft, ShapeWrappedSoft:
 		return false, true
